@@ -155,16 +155,57 @@ func ruleChunkIndexing(c *eng.Ctx) {
 				}
 			}
 		}
-		if idxParam == nil {
-			continue
+		// the counter may also arrive as a *int field of a parameter struct (create…(el, elementChunkParams{…}))
+		isIntPtr := func(t types.Type) bool {
+			pt, ok := t.(*types.Pointer)
+			if !ok {
+				return false
+			}
+			b, ok := pt.Elem().Underlying().(*types.Basic)
+			return ok && b.Kind() == types.Int
+		}
+		paramRooted := func(x ssa.Value) bool {
+			switch y := x.(type) {
+			case *ssa.Parameter:
+				return y != fn.Params[0]
+			case *ssa.Alloc:
+				for _, r := range *y.Referrers() {
+					if st, ok := r.(*ssa.Store); ok && st.Addr == ssa.Value(y) {
+						if p, ok := st.Val.(*ssa.Parameter); ok && p != fn.Params[0] {
+							return true
+						}
+					}
+				}
+			}
+			return false
+		}
+		idxPtr := func(v ssa.Value) bool {
+			if idxParam != nil {
+				return v == ssa.Value(idxParam)
+			}
+			if !isIntPtr(v.Type()) {
+				return false
+			}
+			switch x := v.(type) {
+			case *ssa.Field:
+				return paramRooted(x.X)
+			case *ssa.UnOp:
+				if fa, ok := x.X.(*ssa.FieldAddr); ok && x.Op == token.MUL {
+					return paramRooted(fa.X)
+				}
+			}
+			return false
 		}
 		// stores *chunkIndex = *chunkIndex + 1
 		var incs []*ssa.Store
 		eng.Instrs(fn, false, func(in ssa.Instruction) {
-			if st, ok := in.(*ssa.Store); ok && st.Addr == ssa.Value(idxParam) {
+			if st, ok := in.(*ssa.Store); ok && idxPtr(st.Addr) {
 				incs = append(incs, st)
 			}
 		})
+		if idxParam == nil && len(incs) == 0 {
+			continue
+		}
 		okInc := len(incs) >= 1
 		for _, st := range incs {
 			b, ok := st.Val.(*ssa.BinOp)
